@@ -97,9 +97,11 @@ type Server struct {
 }
 
 type Fault struct {
-	Code int    // HTTP status to answer with; 0 = transport error (timeout)
-	Skip int    // let this many gated requests pass first
-	Verb string // optional: only requests with this verb count ("" = any)
+	Code   int    // HTTP status to answer with; 0 = transport error (timeout)
+	Skip   int    // let this many matching gated requests pass first
+	Verb   string // optional matchers: only requests with this verb / resource / object name count
+	ResKey string
+	Name   string
 }
 
 func NewServer(res []ResourceDef, tr *Trace) *Server {
